@@ -797,6 +797,12 @@ func genC10(r *Rng, n int, tier string) {
 			}
 		}
 	}
+	// (2b) large announced lengths (just below the limit, and mid-range) with only a few payload bytes, then a stall:
+	// the 2 s limit must not depend on the announced size
+	for _, ann := range []uint32{499999, 400000, 20000} {
+		d := []string{ndW(ndFrame(good[0])), ndW(append(ndHeader(ann), r.Bytes(10)...)), ndS(3000), "c"}
+		recs = append(recs, ndRecOf("net.c10", []string{"mode=b", "end=400", ndVoc(voc)}, ndHandshake("b"), d, next))
+	}
 	// (3) payloads of correct length that are no valid message, followed by two valid frames
 	garbage := [][]byte{{}, {0x08}, {0x08, 0xff}, {0xff, 0xff, 0xff, 0xff}, {0x42, 0x7f, 0x01}, {0x0a, 0x05, 0x01}, r.Bytes(17), r.Bytes(300), r.Bytes(4096)}
 	ng := 6
